@@ -406,7 +406,7 @@ def model_matches_oracle(m, exp):
 
 
 # ------------------------------------------------------------------ generation
-LENS = [0, 1, 2, 3, 4, 5, 6, 7, 8, 9, 11, 12, 13, 15, 16, 17, 19, 20, 21, 23, 24, 25, 28, 31, 32, 33, 36, 40, 47, 48, 49, 56, 60, 63, 64]
+LENS = [0, 1, 2, 3, 4, 5, 6, 7, 8, 9, 10, 11, 12, 13, 14, 15, 16, 17, 18, 19, 20, 21, 22, 23, 24, 25, 28, 30, 31, 32, 33, 34, 36, 40, 47, 48, 49, 50, 56, 60, 62, 63, 64]
 NANS = [0x7FF8000000000000, 0xFFF8000000000000, 0x7FF0000000000001, 0x7FFFFFFFFFFFFFFF]
 
 
